@@ -13,6 +13,7 @@ CONSTANTS
   TGs = {"ok"}
   Exts = {}
   WfExtra = {}
+  BatchRGs = {"none"}
   MaxCE = 12
   MaxLE = 22
   MaxFver = 6
